@@ -331,6 +331,31 @@ pub trait SubCheck: Sync {
     fn render(&self, case: &Self::Case) -> Value {
         serde_json::to_value(case).unwrap_or(Value::Null)
     }
+    /// true when the evaluation runs typeshare inside this process: the case is published to the crash guard first
+    fn crash_guard(&self) -> bool {
+        false
+    }
+}
+
+/// `check.eval` under the crash guard (see crash.rs)
+pub fn guarded_eval<S: SubCheck>(run: &Run, check: &S, case: &S::Case, w: &mut Worker, counting: bool) -> Vec<Violation> {
+    if !check.crash_guard() {
+        return check.eval(run, case, w, counting);
+    }
+    crate::crash::install(run.prop);
+    let slot = if w.id < 100 { w.id } else { 100 };
+    let file = serde_json::json!({
+        "property": run.prop,
+        "check": check.name(),
+        "sig": "crash/fatal-signal-in-process",
+        "detail": "typeshare brought the process down with a fatal signal (stack overflow / segfault / abort) while this case was evaluated in-process",
+        "case": serde_json::to_value(case).unwrap_or(Value::Null),
+        "rendered": check.render(case),
+    });
+    crate::crash::enter(slot, serde_json::to_string_pretty(&file).unwrap_or_default().as_bytes());
+    let r = check.eval(run, case, w, counting);
+    crate::crash::leave(slot);
+    r
 }
 
 /// per-thread resources (python worker, scratch dir)
@@ -411,7 +436,7 @@ fn search_thread<S: SubCheck>(run: &Run, check: &S, cases: u32, k: usize, w: &mu
         let res = runner.run(&strat, |case| {
             let counting = !failing.get();
             let mut wref = wcell.borrow_mut();
-            let vs = check.eval(run, &case, &mut **wref, counting);
+            let vs = guarded_eval(run, check, &case, &mut **wref, counting);
             if counting {
                 run.count_eval(1);
                 done.set(done.get() + 1);
@@ -442,7 +467,7 @@ fn search_thread<S: SubCheck>(run: &Run, check: &S, cases: u32, k: usize, w: &mu
             Err(TestError::Fail(_, min_case)) => {
                 let t = target.borrow().clone().unwrap_or_default();
                 // re-evaluate the shrunk case to get the detail text
-                let vs = check.eval(run, &min_case, w, false);
+                let vs = guarded_eval(run, check, &min_case, w, false);
                 let v = vs
                     .iter()
                     .find(|v| v.sig == t)
@@ -480,7 +505,7 @@ pub fn sample_values<T: Debug>(strategy: &impl Strategy<Value = T>, seed: u64, n
 pub fn replay_case<S: SubCheck>(run: &Run, check: &S, case: &Value) -> Result<Vec<Violation>, String> {
     let c: S::Case = serde_json::from_value(case.clone()).map_err(|e| format!("cannot decode case: {e}"))?;
     let mut w = Worker::new(run.prop, 99);
-    let vs = check.eval(run, &c, &mut w, true);
+    let vs = guarded_eval(run, check, &c, &mut w, true);
     run.count_eval(1);
     Ok(run.triage(vs, true))
 }
